@@ -105,6 +105,15 @@ def rejections(sym: S.Sym) -> list[S.Outcome]:
     return [o for o in sym.outcomes if o.kind == "raise" and not is_assertion_error(sym.repo, o.exc)]
 
 
+def swallowed(sym: S.Sym, ev: S.Event, catching: set[str], bad: list[S.Outcome] | None = None) -> str | None:
+    """Name of a handler around `ev` that catches its error and can complete normally (fall through / return / go on to a
+    verdict); a handler that always raises (re-raise, conversion into another exception) does not swallow the error."""
+    for n, i, types in getattr(ev, "handler_entries", ()):
+        if set(types) & catching and sym.handler_swallows.get((n, i), True):
+            return ", ".join(sorted(set(types) & catching))
+    return None
+
+
 def where_o(o: S.Outcome) -> str:
     return f"{o.ctx.relpath}:{getattr(o.node, 'lineno', 0)}" if o.ctx is not None else ""
 
@@ -363,6 +372,9 @@ def run_side_guard(ctx: Ctx, res: Result, roles: dict[str, str] | None) -> None:
         if m is None or m.is_abstract:
             continue
         sym = ctx.run(m)
+        if not any(o.kind == "return" for o in sym.outcomes):
+            res.undecide("C13.R2", f"{m.relpath}::Rule.{name}::subject or object first", f"Rule.{name} never returns normally in the symbolic run: the method was not understood", where(m, m.node))
+            continue
         hits = [o for o in bad_outcomes(sym) if consistent(o, want)]
         ok = not hits
         res.add(
@@ -412,6 +424,9 @@ def run_layer_rule(ctx: Ctx, res: Result) -> None:
         else:
             want, label = no_rule, f"{name}() before layers_that()"
         sym = ctx.run(m)
+        if not bad_outcomes(sym):
+            res.undecide("C13.R2", f"{m.relpath}::LayerRule.{name}::ordering guard", f"LayerRule.{name} neither returns nor evaluates in the symbolic run: the method was not understood", where(m, m.node))
+            continue
         hits = [o for o in bad_outcomes(sym) if consistent(o, want)]
         n += 1
         ok = not hits
@@ -438,8 +453,8 @@ def run_layer_rule(ctx: Ctx, res: Result) -> None:
             continue
         if not any(m_[0] == "b" and m_[1] == "dict" for m_ in members(ev.recv_type)):
             continue
-        if any(h in ("KeyError", "LookupError", "Exception", "BaseException", "<bare>") for h in ev.handlers):
-            detail = f"the KeyError of `{norm(ev.node, 50)}` for an undefined layer is caught"
+        if swallowed(sym, ev, {"KeyError", "LookupError", "Exception", "BaseException", "<bare>"}, bad_outcomes(sym)):
+            detail = f"the KeyError of `{norm(ev.node, 50)}` for an undefined layer is caught and are_named() carries on"
             continue
         if idx.kind == "param":
             good = all(implies(o.cond, ev.cond) for o in rets)
@@ -506,7 +521,7 @@ def run_diagram_rule(ctx: Ctx, res: Result) -> None:
         texts = _const_texts(r.deps)
         both = START_TAG in texts and END_TAG in texts
         if r.kind == "index":
-            caught = any(h in ("ValueError", "Exception", "BaseException", "<bare>") for h in ev.handlers)
+            caught = swallowed(sym, ev, {"ValueError", "Exception", "BaseException", "<bare>"}, bad)
             if not caught and all(implies(o.cond, ev.cond) for o in bad) and both:
                 ok, detail = True, f"`{norm(ev.node, 50)}` raises for a text without the tags on every path to the evaluation"
                 break
@@ -566,8 +581,8 @@ def run_entry_point(ctx: Ctx, res: Result) -> None:
     rel = [ev for ev in sym.events if ev.kind == "call" and ev.name == "relative_to" and ev.recv is not None and "module_path" in sym.deps(ev.recv) and ev.args and "root_path" in sym.deps(ev.args[0])]
     ok, detail = False, "module_path.relative_to(root_path) is no longer evaluated: a module_path outside root_path is not rejected before the scan"
     for ev in rel:
-        if any(h in ("ValueError", "Exception", "BaseException", "<bare>") for h in ev.handlers):
-            detail = f"the ValueError of `{norm(ev.node, 50)}` is caught: a module_path outside root_path is tolerated"
+        if swallowed(sym, ev, {"ValueError", "Exception", "BaseException", "<bare>"}, rets):
+            detail = f"the ValueError of `{norm(ev.node, 50)}` is caught and the scan goes ahead: a module_path outside root_path is tolerated"
             continue
         esc = [o for o in rets if not implies(o.cond, ev.cond)]
         if not esc:
@@ -657,7 +672,7 @@ def run_lookups(ctx: Ctx, res: Result) -> None:
                 continue
             n += 1
             mine = [ev for ev in lookups if sym.deps(ev.args[0]) == frozenset({p})]
-            live = [ev for ev in mine if not (set(ev.handlers) & CATCHES_LOOKUP)]
+            live = [ev for ev in mine if not swallowed(sym, ev, CATCHES_LOOKUP, rets)]
             ok, detail, loc = False, "", where(fi, fi.node)
             if k == "scalar":
                 direct = [ev for ev in live if not ev.loops]
@@ -890,6 +905,11 @@ def handler_verdict(repo: Repo, taint: VerdictTaint, f: FuncInfo, h: ast.ExceptH
                     graph_access.append(norm(c, 50))
             if isinstance(c, ast.Subscript) and "graph" in norm(c.value).lower():
                 graph_access.append(norm(c, 50))
+    from core.cfg import exit_kinds
+
+    converts = exit_kinds(h.body) == {"raise"} and not any(isinstance(r, ast.Raise) and r.exc is not None and is_assertion_error(repo, exception_class_name(repo, f, r.exc)) for b in h.body for r in ast.walk(b))
+    if converts and "AssertionError" not in types_:
+        return True, f"`except {', '.join(types_)}` always re-raises (as a non-AssertionError exception): nothing is swallowed"
     if any(x in ("<bare>", "Exception", "BaseException") for x in types_):
         return False, f"broad handler `except {', '.join(types_)}` in {f.qualname}: configuration and lookup errors raised below it are swallowed or turned into something else"
     if "AssertionError" in types_:
